@@ -1,5 +1,5 @@
 (* Lemmas/C19_Mover.v — proofs about the Mover state machine (Model/C19_Mover.v). *)
-From Coq Require Import ZArith QArith Setoid Permutation.
+From Coq Require Import ZArith QArith Setoid Permutation Sorted.
 From FCA Require Import Base.ListSet Model.C19_LineLayout Model.C19_Mover.
 Local Open Scope nat_scope.
 
@@ -443,6 +443,52 @@ Definition slots_ok (s : mstate) : Prop :=
   forall lvl, lvl < length (m_ppeers s) ->
     Permutation (map (slot_of s) (level_nodes s lvl)) (seq 0 (length (nth lvl (m_ppeers s) []))).
 
+(* ---- sorting with any total comparison *)
+Section GSort.
+Variable A : Type.
+Variable le : A -> A -> bool.
+Hypothesis le_total : forall a b, le a b = false -> le b a = true.
+Let R := fun a b => le a b = true.
+
+Lemma insert_hdrel_g x y l : R y x -> HdRel R y l -> HdRel R y (insert_by le x l).
+Proof.
+  intros Hyx H. destruct l as [|a l]; cbn; [constructor; exact Hyx|].
+  inversion H; subst. destruct (le x a); constructor; assumption.
+Qed.
+
+Lemma insert_sorted_g x l : Sorted R l -> Sorted R (insert_by le x l).
+Proof.
+  induction l as [|y t IH]; intro Hso; cbn.
+  - constructor; constructor.
+  - inversion Hso as [|? ? St Hd]; subst. destruct (le x y) eqn:E.
+    + constructor; [exact Hso|]. constructor. exact E.
+    + constructor; [apply IH; exact St|]. apply insert_hdrel_g; [apply le_total; exact E | exact Hd].
+Qed.
+
+Lemma isort_sorted_g l : Sorted R (isort le l).
+Proof. induction l as [|a l IH]; [constructor|]. rewrite isort_cons. apply insert_sorted_g, IH. Qed.
+End GSort.
+
+Lemma strongly_sorted_nth {A} (R : A -> A -> Prop) (l : list A) d :
+  StronglySorted R l -> forall a b, a < b -> b < length l -> R (nth a l d) (nth b l d).
+Proof.
+  induction l as [|x l IH]; intros SS a b Hab Hb; [cbn in Hb; lia|].
+  inversion SS as [|? ? SSl Fx]; subst. destruct b as [|b]; [lia|]. cbn [length] in Hb.
+  destruct a as [|a]; cbn [nth].
+  - rewrite Forall_forall in Fx. apply Fx. apply nth_In. lia.
+  - apply IH; [exact SSl | lia | lia].
+Qed.
+
+(* coordinates of a level in strictly increasing slot order *)
+Definition qsorted (l : list Q) : Prop :=
+  forall a b, a < b -> b < length l -> (nth a l 0 < nth b l 0)%Q.
+Definition rows_sorted (s : mstate) : Prop :=
+  forall lvl, lvl < length (m_ppeers s) -> qsorted (nth lvl (m_ppeers s) []).
+(* a picture without two nodes on one point *)
+Definition distinct_pts (p : list (Q * Q)) : Prop :=
+  forall a b, a < length p -> b < length p -> a <> b ->
+    ~ ((fst (nth a p (0, 0)) == fst (nth b p (0, 0))) /\ (snd (nth a p (0, 0)) == snd (nth b p (0, 0))))%Q.
+
 Section Load.
 Variable v : bool.
 Variable p : list (Q * Q).
@@ -551,6 +597,51 @@ Proof.
   rewrite (map_ext_in (slot_of (load v p)) (fun j => nindex j PL)); [apply Permutation_refl|].
   intros el Hel. apply filter_In in Hel. destruct Hel as [Hs He]. apply in_seq in Hs. apply Nat.eqb_eq in He.
   rewrite load_slot by lia. rewrite He, EP. reflexivity.
+Qed.
+
+Lemma value_distinct : distinct_pts p -> distinct_pts value.
+Proof.
+  intros D a b Ha Hb Nab. rewrite value_length in Ha, Hb. fold n in D. specialize (D a b Ha Hb Nab).
+  unfold value. destruct v; [exact D|].
+  rewrite !(nth_map_in (fun xy => (snd xy, - fst xy)%Q) p _ (0, 0)%Q (0, 0)%Q) by assumption.
+  cbn [fst snd]. intros [E1 E2]. apply D. split; [|exact E1].
+  rewrite <- (Qopp_involutive (fst (nth a p (0, 0)%Q))), <- (Qopp_involutive (fst (nth b p (0, 0)%Q))).
+  now rewrite E2.
+Qed.
+
+Lemma load_rows_sorted : distinct_pts p -> rows_sorted (load v p).
+Proof.
+  intros D lvl Hl.
+  change (m_ppeers (load v p)) with (map (map xs) peers) in *.
+  assert (Hl' : lvl < length lvl_coords) by (unfold peers in Hl; now rewrite !map_length, seq_length in Hl).
+  set (nodes := filter (fun el => Nat.eqb (nth el levels 0) lvl) (seq 0 n)).
+  assert (EP : nth lvl peers [] = isort (fun a b => Qle_bool (xs a) (xs b)) nodes).
+  { unfold peers. exact (nth_map_seq (fun l => isort (fun a b => Qle_bool (xs a) (xs b))
+      (filter (fun el => Nat.eqb (nth el levels 0) l) (seq 0 n))) (length lvl_coords) lvl [] Hl'). }
+  rewrite (nth_map_in (map xs) peers lvl [] []) by (unfold peers; now rewrite map_length, seq_length).
+  rewrite EP. set (PL := isort (fun a b => Qle_bool (xs a) (xs b)) nodes).
+  assert (P : Permutation PL nodes) by apply isort_perm.
+  assert (ND : NoDup PL) by (apply (Permutation_NoDup (Permutation_sym P)); apply NoDup_filter, seq_NoDup).
+  assert (SS : StronglySorted (fun a b => Qle_bool (xs a) (xs b) = true) PL).
+  { apply Sorted_StronglySorted.
+    - intros x y z H1 H2. apply Qle_bool_iff in H1. apply Qle_bool_iff in H2. apply Qle_bool_iff. eapply Qle_trans; eauto.
+    - apply isort_sorted_g. intros a b H. apply Qle_bool_iff. apply Qlt_le_weak.
+      apply Qnot_le_lt. intro L. apply Qle_bool_iff in L. congruence. }
+  intros a b Hab Hb. rewrite map_length in Hb.
+  rewrite !(nth_map_in xs PL _ 0%Q 0) by lia.
+  pose proof (strongly_sorted_nth _ PL 0 SS a b Hab Hb) as LE. cbn beta in LE. apply Qle_bool_iff in LE.
+  destruct (Qle_lt_or_eq _ _ LE) as [LT|EQ]; [exact LT|]. exfalso.
+  set (ea := nth a PL 0) in *. set (eb := nth b PL 0) in *.
+  assert (Ia : In ea nodes) by (apply (Permutation_in _ P); apply nth_In; lia).
+  assert (Ib : In eb nodes) by (apply (Permutation_in _ P); apply nth_In; lia).
+  apply filter_In in Ia. destruct Ia as [Sa La]. apply in_seq in Sa. apply Nat.eqb_eq in La.
+  apply filter_In in Ib. destruct Ib as [Sb Lb]. apply in_seq in Sb. apply Nat.eqb_eq in Lb.
+  assert (Nab : ea <> eb).
+  { intro E. assert (a = b); [|lia]. apply (proj1 (NoDup_nth PL 0) ND); [lia | lia | exact E]. }
+  apply (value_distinct D ea eb); [rewrite value_length; lia | rewrite value_length; lia | exact Nab |].
+  split; [exact EQ|].
+  destruct (level_found ea ltac:(lia)) as [_ Ya]. destruct (level_found eb ltac:(lia)) as [_ Yb].
+  rewrite <- Ya, <- Yb, La, Lb. reflexivity.
 Qed.
 End Load.
 
